@@ -64,12 +64,59 @@ def check(run):
             elif r < 0.5:
                 seq.append("rln init_leaves " + treegen.vlist([treegen.val(rng) for _ in range(rng.choice([0, 1, 3]))]))
             else:
-                rem = rng.sample([0, 1, 2, 3, 4, 5, 8, 9, 254, 255], rng.choice([0, 0, 1, 1, 2]))
+                rem = [rng.choice([0, 1, 2, 3, 4, 5, 6, 8, 9, 254, 255, start % 256, (start + 1) % 256]) for _ in range(rng.choice([0, 0, 1, 1, 2, 3, 4]))]
                 seq.append(f"rln atomic {hex(start)} {vs} {','.join(hex(x) for x in rem) or '-'}")
             seq += ["rln root", "rln leaves_set", "rln empty", f"rln get_leaf {hex(rng.choice([0, 1, 2, 3, 5, 8]))}", f"rln get_leaf {hex(start % (1 << 20))}"]
         rs.append(seq)
     run.differential("rln-batch-api-clean", [[l for l in s2 if not rln_shape(l)] for s2 in rs])
     run.differential("rln-batch-api-defect-region", rs, classify=classify_rln)
+    # ---- the same API glue over the in-memory backends (builds of rln with --features fullmerkletree / --no-default-features):
+    #      implementation against the specification (the model side of the RLN object is the default backend)
+    bins = core.build_cfgh(["full", "optimal"])
+    for cfg, (b, err) in bins.items():
+        if b is None:
+            raise core.Abort(f"configuration harness `{cfg}` does not build: {err[-400:]}")
+        api = []
+        for k in range(12 if quick else 120):
+            seq = ["reset"]
+            if rng.random() < 0.8:
+                seq.append("init_leaves " + treegen.vlist([rng.randint(1, 1 << 40) for _ in range(rng.choice([2, 5, 9, 12]))]))
+            for _ in range(rng.randint(1, 5)):
+                start = rng.choice([0, 1, 2, 4, 5, 8, 255, 256, 1 << 20])
+                n = rng.choice([0, 1, 2, 3, 4])
+                vs = treegen.vlist([treegen.val(rng) for _ in range(n)])
+                r = rng.random()
+                if r < 0.25:
+                    seq.append(f"set_leaves_from {hex(start)} {vs}")
+                else:
+                    # removal lists of up to five entries, unsorted, duplicated, inside / at the edges of / outside the written range
+                    pool = [start, start + 1, max(start - 1, 0), start + n - 1 if n else start, start + n, start + n + 1, 0, 1, 3, 9, 11, 254, 255]
+                    rem = [min(x, 255) for x in (rng.choice(pool) for _ in range(rng.choice([0, 1, 2, 3, 3, 4, 5])))]
+                    seq.append(f"atomic {hex(start)} {vs} {','.join(hex(x) for x in rem) or '-'}")
+                seq += ["root", "count", "empty"] + [f"leaf {hex(i)}" for i in sorted({0, 1, 2, 3, 4, 5, 6, 7, 8, 9, 10, 11, start % (1 << 20)})]
+            api.append(seq)
+        flat = [l for s2 in api for l in s2]
+        impl = core.run_bin(b, flat)
+        tr = {"reset": "rln new", "root": "lock root", "count": "rln leaves_set", "empty": "rln empty"}
+        sl = []
+        for l in flat:
+            w = l.split(" ")
+            sl.append(tr.get(l) or ("lock get_leaf " + w[1] if w[0] == "leaf" else "rln init_leaves " + w[1] if w[0] == "init_leaves" else "rln " + l))
+        spec = core.run_lean("spec", sl)
+        pos = 0
+        for seq in api:
+            I, S = impl[pos:pos + len(seq)], spec[pos:pos + len(seq)]
+            pos += len(seq)
+            run.count_case((cfg, tuple(seq)))
+            run.cov["traces_validated_against_impl"] += 1
+            bad = next((t for t in range(len(seq)) if "n/a" not in (I[t], S[t]) and I[t] != S[t]), None)
+            if bad is not None:
+                run.cov["impl_vs_spec_failures"] += 1
+                if len(run.violations) < 3:
+                    run.violation({"property": run.pid, "kind": "impl-vs-spec", "stream": f"rln-batch-api-{cfg}", "ops": seq[:bad + 1],
+                                   "detail": f"RLN built with the `{cfg}` backend: `{seq[bad]}` -> {I[bad][:120]} but the specification says {S[bad][:120]}",
+                                   "observed_impl": I[:bad + 1], "expected_spec": S[:bad + 1], "impl_args": ["cfgh", cfg]})
+        run.cov.setdefault("streams", {})[f"rln-batch-api-{cfg}"] = {"sequences": len(api), "ops": len(flat)}
     # batch initialisation == fresh tree + batch at 0 (RLN::init_tree_with_leaves is `tree new` + batch 0 vs [])
     run.rules.append("shape-directed batches (removals before/inside/after/interleaved with the written range, unsorted, duplicated, empty parts, out of range) mixed with single writes, appends, deletions, range writes; depths 2..6; every observable compared after every op; distinct = distinct op sequence")
 
